@@ -114,7 +114,7 @@ PROPS["C09"] = {
 
 PROPS["C01"] = {
     "level": "model_checking",
-    "kani": [{"package": "boa_engine", "flags": ENGINE_FLAGS, "tags": ["model", "c01a", "c01d", "c01e"]}],
+    "kani": [{"package": "boa_engine", "flags": ENGINE_FLAGS, "tags": ["model", "c01a", "c01c", "c01d", "c01e"]}],
     "assumptions": COMMON_ASSUME + [
         "operands are Numbers (Integer32 / Float64); coercion of other types is outside",
         "Float64 results of int-specialised paths are compared with the syntactically identical IEEE expression on the converted operands; integer results against exact i64 arithmetic",
